@@ -1,3 +1,5 @@
 import Audit.Tool
 import Adb.Props.C06
+import Adb.Props.C13Store
 #audit_module Adb.Props.C06
+#audit_module Adb.Props.C13Store
